@@ -671,7 +671,8 @@ def rule_a12(repo):
 
     def biggest(f):
         flow = flow_of(f.node)
-        sks = [_conv_skeleton(flow, n.value) for n in ast.walk(f.node) if isinstance(n, ast.Assign)]
+        # every conversion the function builds, wherever it stands (assigned to a name, or used on the spot: then_conv(..).eval(t))
+        sks = [_conv_skeleton(flow, n) for n in ast.walk(f.node) if isinstance(n, ast.Call) and (call_name(n) or '').split('.')[-1].endswith('_conv')]
         sks = [x for x in sks if x]
         return max(sks, key=len) if sks else None
     for c in m.classes.values():
